@@ -1,33 +1,74 @@
 ------------------------------- MODULE Lifecycle -------------------------------
 (***************************************************************************)
-(* Extractor values of the fluent API and the file handles behind them.    *)
-(* Deriving a configured extractor (Pages, ByColumn, ...) never changes    *)
-(* the extractor it came from; a terminal operation (Text, Chunks, ...)    *)
-(* releases what it opened, successful or not; a non-terminal one          *)
-(* (PageCount, IsMultiColumn) may keep the handle until Close; Close is    *)
-(* idempotent.                                                             *)
-(* Mode "own":   a derived extractor opens its own handle on demand        *)
-(*               (the contract, and the repaired clone()).                 *)
-(* Mode "share": clone() copies the reader pointer AND the ownership flags *)
-(*               (the pinned code) - kept as a refutable variant.          *)
+(* Extractor values of the fluent API: their page selection, and the file  *)
+(* handles behind them.                                                    *)
+(*  - Deriving a configured extractor (Pages, PageRange, ByColumn, ...)    *)
+(*    never changes the extractor it came from - neither its options nor   *)
+(*    any later result - nor any other extractor derived earlier.          *)
+(*  - A terminal operation (Text, Chunks, ...) returns the pages the       *)
+(*    extractor's own selection names (ascending; an error if one is       *)
+(*    outside the document) and releases what it opened, successful or     *)
+(*    not; a non-terminal one (PageCount) may keep the handle until Close; *)
+(*    Close is idempotent.                                                 *)
+(* Modes (the last two are refutable implementation-shaped variants):      *)
+(*  "own"    derivation copies the selection; a derived extractor opens    *)
+(*           its own handle on demand (the contract and the repaired code) *)
+(*  "share"  clone() copies the reader pointer AND the ownership flags     *)
+(*           (the pinned code)                                             *)
+(*  "alias"  clone() reuses the page slice: the selection is a (backing    *)
+(*           array, length) pair with Go's append semantics - in place     *)
+(*           while capacity lasts, so siblings derived from one base write *)
+(*           into the same slot                                            *)
 (***************************************************************************)
 EXTENDS Integers, Sequences, FiniteSets, TLC
 
-CONSTANTS MaxExt, MaxOps, Mode
+CONSTANTS MaxExt, MaxOps, Mode, NP      \* NP = pages of the document
 
-VARIABLES ext,      \* sequence of extractors [reader, owns, opened, bad]
+VARIABLES ext,      \* sequence of extractors [reader, owns, opened, arr, len]
+          arrays,   \* backing arrays: sequence of [cap, data] with data \in [1..cap -> Nat]
           handles,  \* set of open handle ids
           nextH, log
-vars == <<ext, handles, nextH, log>>
+vars == <<ext, arrays, handles, nextH, log>>
 
-Init == /\ ext = << [reader |-> 0, owns |-> FALSE, opened |-> FALSE, bad |-> FALSE] >>     \* tabula.Open(f)
+\* what each builder call appends to the selection
+Appends(kind) == CASE kind = "p4" -> <<4>> [] kind = "p5" -> <<5>> [] kind = "r13" -> <<1, 2, 3>>
+                   [] kind = "bad" -> <<99>> [] kind = "col" -> <<>>
+Kinds == {"p4", "p5", "r13", "bad", "col"}
+
+Visible(x, as, e) == [i \in 1..x[e].len |-> as[x[e].arr].data[i]]
+SelSet(s) == {s[i] : i \in 1..Len(s)}
+RECURSIVE SortedSeq(_)
+SortedSeq(S) == IF S = {} THEN <<>> ELSE LET m == CHOOSE x \in S : \A y \in S : x <= y IN <<m>> \o SortedSeq(S \ {m})
+\* the result a terminal operation must give for a selection
+ResultOf(s) == IF \E p \in SelSet(s) : p < 1 \/ p > NP THEN <<-1>>                 \* error
+               ELSE IF s = <<>> THEN [i \in 1..NP |-> i] ELSE SortedSeq(SelSet(s))
+
+EmptyArr == [cap |-> 0, data |-> <<>>]
+Init == /\ ext = << [reader |-> 0, owns |-> FALSE, opened |-> FALSE, arr |-> 1, len |-> 0] >>     \* tabula.Open(f)
+        /\ arrays = <<EmptyArr>>
         /\ handles = {} /\ nextH = 1 /\ log = <<>>
 
-Derive(e, bad) ==
+\* Go's append of one element x to the slice (a, n) over the arrays as: <<arrays', a', n'>>
+Append1(as, a, n, x) ==
+    IF n < as[a].cap
+    THEN << [as EXCEPT ![a].data[n + 1] = x], a, n + 1 >>                                   \* in place: shared with every alias
+    ELSE LET c == IF as[a].cap = 0 THEN 1 ELSE 2 * as[a].cap
+             d == [i \in 1..c |-> IF i <= n THEN as[a].data[i] ELSE IF i = n + 1 THEN x ELSE 0]
+         IN << Append(as, [cap |-> c, data |-> d]), Len(as) + 1, n + 1 >>
+RECURSIVE AppendAll(_, _, _, _)
+AppendAll(as, a, n, xs) == IF xs = <<>> THEN <<as, a, n>>
+                           ELSE LET r == Append1(as, a, n, Head(xs)) IN AppendAll(r[1], r[2], r[3], Tail(xs))
+\* a private copy of the visible part
+CopyOf(as, a, n) == << Append(as, [cap |-> n, data |-> [i \in 1..n |-> as[a].data[i]]]), Len(as) + 1, n >>
+
+Derive(e, kind) ==
     /\ Len(ext) < MaxExt
-    /\ ext' = Append(ext, IF Mode = "share" THEN [ext[e] EXCEPT !.bad = ext[e].bad \/ bad]
-                          ELSE [reader |-> 0, owns |-> FALSE, opened |-> FALSE, bad |-> ext[e].bad \/ bad])
-    /\ log' = Append(log, [op |-> "derive", e |-> e, bad |-> bad, res |-> "ok", open |-> Cardinality(handles)])
+    /\ LET start == IF Mode = "alias" THEN <<arrays, ext[e].arr, ext[e].len>> ELSE CopyOf(arrays, ext[e].arr, ext[e].len)
+           r == AppendAll(start[1], start[2], start[3], Appends(kind))
+           base == IF Mode = "share" THEN ext[e] ELSE [reader |-> 0, owns |-> FALSE, opened |-> FALSE, arr |-> 0, len |-> 0]
+       IN /\ arrays' = r[1]
+          /\ ext' = Append(ext, [base EXCEPT !.arr = r[2], !.len = r[3]])
+    /\ log' = Append(log, [op |-> "derive", e |-> e, kind |-> kind, res |-> "ok", pages |-> <<>>, open |-> Cardinality(handles)])
     /\ UNCHANGED <<handles, nextH>>
 
 \* ensureReader followed by one use of the reader
@@ -41,35 +82,38 @@ CloseIn(x, hs, e) == IF x[e].owns /\ x[e].reader # 0
 NonTerminal(e) ==
     LET s == Ensure(e) IN
     /\ ext' = s[1] /\ handles' = s[2] /\ nextH' = s[3]
-    /\ log' = Append(log, [op |-> "pagecount", e |-> e, bad |-> FALSE,
-                           res |-> IF UseOK(s[1], s[2], e) THEN "ok" ELSE "closed", open |-> Cardinality(s[2])])
+    /\ log' = Append(log, [op |-> "pagecount", e |-> e, kind |-> "-",
+                           res |-> IF UseOK(s[1], s[2], e) THEN "ok" ELSE "closed", pages |-> <<>>, open |-> Cardinality(s[2])])
+    /\ UNCHANGED arrays
 
 Terminal(e) ==
     LET s == Ensure(e)
-        c == CloseIn(s[1], s[2], e) IN
+        c == CloseIn(s[1], s[2], e)
+        r == ResultOf(Visible(ext, arrays, e)) IN
     /\ ext' = c[1] /\ handles' = c[2] /\ nextH' = s[3]
-    /\ log' = Append(log, [op |-> "text", e |-> e, bad |-> FALSE,
-                           res |-> IF ~UseOK(s[1], s[2], e) THEN "closed" ELSE IF ext[e].bad THEN "error" ELSE "ok",
-                           open |-> Cardinality(c[2])])
+    /\ log' = Append(log, [op |-> "text", e |-> e, kind |-> "-",
+                           res |-> IF ~UseOK(s[1], s[2], e) THEN "closed" ELSE IF r = <<-1>> THEN "error" ELSE "ok",
+                           pages |-> IF r = <<-1>> THEN <<>> ELSE r, open |-> Cardinality(c[2])])
+    /\ UNCHANGED arrays
 
 Close(e) ==
     LET c == CloseIn(ext, handles, e) IN
     /\ ext' = c[1] /\ handles' = c[2]
-    /\ log' = Append(log, [op |-> "close", e |-> e, bad |-> FALSE, res |-> "ok", open |-> Cardinality(c[2])])
-    /\ UNCHANGED nextH
+    /\ log' = Append(log, [op |-> "close", e |-> e, kind |-> "-", res |-> "ok", pages |-> <<>>, open |-> Cardinality(c[2])])
+    /\ UNCHANGED <<nextH, arrays>>
 
 Next == /\ Len(log) < MaxOps
-        /\ \E e \in 1..Len(ext) : \/ \E b \in BOOLEAN : Derive(e, b)
+        /\ \E e \in 1..Len(ext) : \/ \E k \in Kinds : Derive(e, k)
                                   \/ NonTerminal(e) \/ Terminal(e) \/ Close(e)
 Spec == Init /\ [][Next]_vars
 
 \* ----------------------------------------------------------- properties
 \* no operation ever finds its reader closed behind its back
 DeriveIsPure == \A i \in 1..Len(log) : log[i].res # "closed"
+\* the selection an extractor was created with never changes afterwards
+SelectionIsStable == [][\A e \in 1..Len(ext) : Visible(ext', arrays', e) = Visible(ext, arrays, e)]_vars
 \* every open handle is owned by exactly one extractor (none leaks, none is shared)
 OneOwner == \A h \in handles : Cardinality({e \in 1..Len(ext) : ext[e].reader = h /\ ext[e].owns}) = 1
-\* an extractor that has just terminated or been closed holds nothing
-Released == \A i \in 1..Len(log) : TRUE
 Quiescent == \A e \in 1..Len(ext) : ~ext[e].opened
 QuiescentReleased == Quiescent => handles = {}
 ================================================================================
